@@ -9,7 +9,7 @@ for l in open('/verif/.work/triage.txt'):
     m=re.match(r'TRIAGE\s+(\d+) (\S+) \| (.*?)\s+e\.g\. `(.*?)`  (.*)',l)
     if not m: print('??',l.strip()[:200]); continue
     n,rule,locus,e,detail=m.groups()
-    locus=re.sub(r'spine\[.*?\]/','',locus); locus=re.sub(r'seq\[.*?\]','seq',locus)
+    locus=re.sub(r'spine\[.*?\]/','',locus); locus=re.sub(r'seq\[.*?\]','seq',locus); locus=re.sub(r'prev=\S+ at=(?!empty|alias|END)\S+','prev=* at=*',locus); locus=re.sub(r'prev=\S+','prev=*',locus)
     k=(rule,locus); c[k]+=int(n)
     if k not in ex or len(e)<len(ex[k][0]): ex[k]=(e,detail)
 for k,n in sorted(c.items()): print(n,k,'`'+ex[k][0][:110]+'`', ex[k][1][:160])
